@@ -23,8 +23,9 @@ class FSim(DSim):
     NET = ("mopen", "start", "send", "mrx", "mstopped", "tcp", "data", "turn")
     NET_LAZY = ("mopen", "start", "send", "mrx", "mstopped", "data", "turn", "tcp")
 
-    def __init__(self, nmsg=(1, 1), max_mdrops=1, dilate_when="early", old_peer=False, reorder=False, **kw):
+    def __init__(self, nmsg=(1, 1), max_mdrops=1, dilate_when="early", old_peer=False, reorder=False, disjoint=False, **kw):
         self.nmsg, self.max_mdrops, self.reorder = nmsg, max_mdrops, reorder
+        self.disjoint = disjoint        # the peer offers only a dilation version we do not know: it "cannot dilate" with us, although it would like to
         self.dilate_when = dilate_when
         self.old_peer = old_peer
         self.mopens = [0, 0]
@@ -32,10 +33,10 @@ class FSim(DSim):
         self.swaps = 0
         self.sent = [0, 0]
         kw.setdefault("stoppable", True)
-        DSim.__init__(self, peer_inert=old_peer, **kw)
+        DSim.__init__(self, peer_inert=old_peer or disjoint, **kw)
 
     def make_world(self, sides=None, expected=(None, None), can_dilate=None, ping_interval=30.0, no_listen=(False, False)):
-        return FWorld(expected=expected, ping_interval=ping_interval, can_dilate=(True, not self.old_peer), no_listen=no_listen)
+        return FWorld(expected=expected, ping_interval=ping_interval, can_dilate=(True, not self.old_peer), no_listen=no_listen, disjoint=self.disjoint)
 
     def control_actions(self):
         acts = []
